@@ -105,7 +105,10 @@ func (m *MmsTables) execMergeContext(ctx *MergeContext) {
 	defer func() {
 		tool.Release()
 		if m.compactRecovery {
-			MergeRecovery(m.path, ctx.mst, ctx)
+			// recover must be called by the deferred function itself: inside MergeRecovery it recovers nothing
+			if err := recover(); err != nil {
+				logMergePanic(err, m.path, ctx.mst, ctx)
+			}
 		}
 		stat.AddActive(-1)
 		logEnd()
